@@ -156,9 +156,16 @@ CFG = dict(
          "{.1, .5, .9} for 50 (300) random bases (with and without nulls of their own) — each variant through all sources; "
          "aggregations and order statistics must be IDENTICAL (bit for bit) to those of the base. Two series: pairs (null, null), "
          "(null, v), (v, null) with arbitrary partner v inserted at every pattern (exhaustive for valid pairs up to length 3, "
-         "random otherwise): vcov / vcorr_pearson identical for every min_periods. nt=0 marks empty series / no variant.",
+         "random otherwise): vcov / vcorr_pearson identical for every min_periods. Audit groups: aggb (vany vall on the flag series x > 0, "
+         "NaN = null flag: Vec<Option<bool>>, its option view, titer, VecDeque, Vec<bool> when null-free; exhaustive up to length 4 (5), "
+         "random, every insertion pattern up to total length 5) and aggk (the masked count / sum / mean n_vsum_filter n_sum_filter "
+         "vmean_filter for every min_periods; data f64 / Option<f64> / option view x mask Option<bool> / option view / VecDeque / bool; "
+         "part=ins inserts observations that do not count: null value with any flag, value with a null or false flag). "
+         "nt=0 marks empty series / no variant.",
     theorem_hint="Props/C08.v: C08_encoding_* (rolling families, aggregations, order statistics, maps, vrank, partitions), "
-                 "C08_output_encoding, C08_transparent_* (null insertion; quantile at every carrier; rank)",
+                 "C08_output_encoding, C08_transparent_* (null insertion; quantile at every carrier; rank); audit: C08_fold_mechanism_*, "
+                 "C08_encoding_bool_aggregations, C08_encoding_masked, C08_transparent_masked, C08_insertion_changes_exactly, "
+                 "C08_noncanonical_null_excluded, C08_*_binary64",
     level_text="Proof (Coq): (a) for any two null dictionaries and inputs with pointwise equal option views every null-aware "
                "model function returns the same result: the add-emit-remove rolling families (moments, ewm, wma, z-score, "
                "trend regressions, cov / corr / regx) by a generic relational theorem on the driver (every window, both bodies), "
@@ -192,6 +199,14 @@ CFG = dict(
                "slots, NaN at the null slots; hence vrank (insert_pat nl p xs) = insert_pat (Some NaN) p (vrank xs) for every "
                "pattern (the recorded full statement), for the inductive NullInsert, composed with re-encoding, and outright at "
                "binary64 for every dictionary over f64. "
+               "Audit (Proofs/Audit08.v, Audit08Float.v; 14 theorems, 63 in total; function x {encoding, transparency} x carrier table in "
+               "notes/C08.md): the MECHANISM itself - vfold / vfold_n / vapply_n with an arbitrary callback are functions of the "
+               "unwrapped valid elements, hence invariant under re-encoding and null insertion; the boolean aggregations vany / vall "
+               "and the masked family n_vsum_filter / n_sum_filter / vmean_filter (data and mask re-encoded independently; transparent "
+               "to observations with a null or false flag or a null value), which no theorem named; what insertion DOES change, exactly "
+               "(length, count_none and the count of the null value grow by the number inserted; count_valid + count_none = len); "
+               "re-encoding and insertion composed for the whole family; the canonical-null assumption is proved necessary (Some(NaN) is "
+               "counted as a valid element); outright binary64 instances (Vec<f64> vs its Option<f64> rendering, NaN insertion). "
                "Still partial: varg_partition / arg-extrema under null insertion are positional (not claimed). Tied to the "
                "code by relational runs of the public API under every encoding and every insertion pattern, plus the model tie.",
     level_note="Trusted: Coq kernel (the C08 theorems are axiom-free except the quantile / rank corollaries stated over option R); the "
